@@ -452,7 +452,7 @@ def gen(rng, tier):
                 add('corpus', script=script, hints=hints, conv=conv)
         add('corpus', script=script, hints=True, conv='broken')
         add('corpus', script=script, hints=False, conv='broken', opts=_opts(rng))
-    for _ in range(50000 if big else 6000):
+    for _ in range(50000 if big else 4000):
         safe = rng.random() < 0.6
         ast = bc.gen_ast(rng, safe=safe, n_eq=rng.choice([0, 1, 1, 2, 3, 4]))
         # distinct left-hand names so that the script is accepted
@@ -465,9 +465,9 @@ def gen(rng, tier):
         if rng.random() < 0.2:
             script += rng.choice(['\n`tmp = 1`', '\n```\nfoo = 1\nbar = foo + 1\n```', '\n```\nif True:\n    z = 0\n```'])
         add('ast', script=script, opts=_opts(rng), hints=rng.random() < 0.5, conv=rng.choice(CONVS + ['default', 'count']), safe=safe)
-    for _ in range(20000 if big else 3000):
+    for _ in range(20000 if big else 2000):
         add('symbols', symbols=_rand_symbols(rng), opts=_opts(rng), hints=rng.random() < 0.5, conv=rng.choice(CONVS))
-    for _ in range(15000 if big else 1500):
+    for _ in range(15000 if big else 1000):
         s = pc.gen_script(rng)
         if rng.random() < 0.5:
             s = pc.mutate(rng, s)
